@@ -89,6 +89,12 @@ impl Joypad {
     !value
   }
 
+  /// Pending (not yet collected) interrupt request, without consuming it
+  #[cfg(gb_dynarec_verif)]
+  pub fn verif_pending(&self) -> u8 {
+    self.next_interrupt.as_u8()
+  }
+
   pub fn get_interrupt(&mut self) -> InterruptFlag {
     std::mem::replace(&mut self.next_interrupt, InterruptFlag::empty())
   }
